@@ -87,6 +87,7 @@ def run_tlc(
     files=None,
     allow_violation=False,
     heap="4g",
+    stack="16m",
 ):
     """module: name of a module in /verif/spec, or (name, text) for a generated module.
     extra_modules: dict name->text of additional generated modules.
@@ -107,9 +108,9 @@ def run_tlc(
             fh.write(t)
     (sdir / f"{name}.cfg").write_text(cfg_text)
     if workers <= 2:
-        cmd = ["java", "-XX:+UseSerialGC", "-XX:CICompilerCount=2", f"-Xmx{heap}", "-Xss16m"]
+        cmd = ["java", "-XX:+UseSerialGC", "-XX:CICompilerCount=2", f"-Xmx{heap}", f"-Xss{stack}"]
     else:
-        cmd = ["java", "-XX:+UseParallelGC", f"-XX:ParallelGCThreads={min(8, workers)}", f"-Xmx{heap}", "-Xss16m"]
+        cmd = ["java", "-XX:+UseParallelGC", f"-XX:ParallelGCThreads={min(8, workers)}", f"-Xmx{heap}", f"-Xss{stack}"]
     cmd += list(java_opts or [])
     cmd += ["-cp", JAR, "tlc2.TLC", "-workers", str(workers), "-metadir", str(sdir / "meta"), "-noGenerateSpecTE"]
     if coverage:
